@@ -7,9 +7,11 @@ package main
 
 import (
 	"fmt"
+	"go/ast"
 	"go/constant"
 	"go/token"
 	"go/types"
+	"os"
 	"sort"
 	"strings"
 
@@ -17,30 +19,31 @@ import (
 )
 
 type Exec struct {
-	qInst       []func(idx string) string // instantiators of quantified hypotheses (see instantiateAt)
-	qDone       map[string]bool
-	qRegister   bool
-	assertHits  map[int]int // site assertion (index in the contract) -> number of call sites it matched
-	refBound    string      // allocation bound for references inside objects described by validFacts (default: entry)
-	envCalls    map[string]bool
-	entryBinds  []Val
-	cutParts    map[string][]string
-	eng         *Engine
-	vc          *VC
-	top         *ssa.Function
-	topC        *Contract
-	stack       []*ssa.Function
-	maxDepth    int
-	trace       *Trace
-	checkPanics bool
-	nPanicObl   int
-	nGuarded    int
-	nonNil      map[string]bool // reference terms known to be non-zero on every path
-	curFrame    *frame
-	noModular   bool                // look into callees even when they carry a contract (trace extraction)
-	loopSpecs   map[int]*LoopSpec   // plug-in supplied loop contracts of the top function
-	over        map[string]stdModel // per-run model overrides (mode A abstractions)
-	opaque      map[string]bool     // callees never inlined: result havocked, no write to existing memory
+	preTaggedOnly bool                      // mode A: only property-tagged callee preconditions are obligations
+	qInst         []func(idx string) string // instantiators of quantified hypotheses (see instantiateAt)
+	qDone         map[string]bool
+	qRegister     bool
+	assertHits    map[int]int // site assertion (index in the contract) -> number of call sites it matched
+	refBound      string      // allocation bound for references inside objects described by validFacts (default: entry)
+	envCalls      map[string]bool
+	entryBinds    []Val
+	cutParts      map[string][]string
+	eng           *Engine
+	vc            *VC
+	top           *ssa.Function
+	topC          *Contract
+	stack         []*ssa.Function
+	maxDepth      int
+	trace         *Trace
+	checkPanics   bool
+	nPanicObl     int
+	nGuarded      int
+	nonNil        map[string]bool // reference terms known to be non-zero on every path
+	curFrame      *frame
+	noModular     bool                // look into callees even when they carry a contract (trace extraction)
+	loopSpecs     map[int]*LoopSpec   // plug-in supplied loop contracts of the top function
+	over          map[string]stdModel // per-run model overrides (mode A abstractions)
+	opaque        map[string]bool     // callees never inlined: result havocked, no write to existing memory
 }
 
 // frame is one activation (top-level or inlined).
@@ -264,9 +267,15 @@ func (x *Exec) run(fn *ssa.Function, c *Contract, args []Val, bindings []Val, st
 			}
 			r, ok := fr.reachOut[p]
 			if !ok {
+				if os.Getenv("GOVC_DEBUG") != "" {
+					fmt.Fprintf(os.Stderr, "debug: %s block %d: predecessor %d has no out-reach\n", fn.Name(), b.Index, p.Index)
+				}
 				continue // unreachable predecessor (e.g. after panic)
 			}
 			in = append(in, incoming{cond: and(r, x.edgeCond(fr, p, b)), st: fr.stOut[p]})
+			if os.Getenv("GOVC_DEBUG") != "" && fn.Name() == os.Getenv("GOVC_DEBUG") {
+				fmt.Fprintf(os.Stderr, "debug: %s block %d <- %d cond %s\n", fn.Name(), b.Index, p.Index, and(r, x.edgeCond(fr, p, b)))
+			}
 		}
 		var cur State
 		var r string
@@ -312,6 +321,9 @@ func (x *Exec) run(fn *ssa.Function, c *Contract, args []Val, bindings []Val, st
 			var cont bool
 			r, cont = x.instr(fr, ins, &cur, r)
 			if !cont {
+				if os.Getenv("GOVC_DEBUG") != "" {
+					fmt.Fprintf(os.Stderr, "debug: %s block %d ends at %T %s\n", fn.Name(), b.Index, ins, ins)
+				}
 				alive = false
 				break
 			}
@@ -569,6 +581,27 @@ func (x *Exec) havocLoopState(fr *frame, li *loopInfo, cur *State, r string) {
 			keep = and(keep, not(or(mods...)))
 			x.havocMem(cur, keep)
 			li.headMem, li.keepCond = cur.Mem, keep
+			// the fields an iteration may modify hold well-typed values at the head, referring to
+			// objects that exist by then (Go's type system; without this a havocked slice header may
+			// "point" at an object that is only allocated later in the body)
+			x.refBound = cur.Alloc
+			for _, m := range li.spec.Modifies {
+				if sel, ok := m.Expr.(*ast.SelectorExpr); ok {
+					func() {
+						defer func() {
+							if e := recover(); e != nil {
+								if _, ok := e.(specErr); !ok {
+									panic(e)
+								}
+							}
+						}()
+						bv := env.eval(sel.X)
+						ref, off, ft := env.fieldAddr(bv, sel.Sel.Name)
+						x.validFacts(cur.Mem, ft, ref, off, r, 1)
+					}()
+				}
+			}
+			x.refBound = ""
 		} else if !calls && !callWrites && !x.loopStoresOld(fr, li) {
 			// only fresh objects are written
 			x.vc.havocFrame(cur, li.entrySt.Alloc)
